@@ -6,6 +6,9 @@ def rapid(sub, quick, thorough, shards=8, **kw):
     return d
 
 PROPS = {
+    "C08": {"jobs": [
+        rapid("C08a", 1500, 6000, shrinktime="15s"),
+    ]},
     "C15": {"jobs": [
         rapid("C15a", 6000, 30000),
         rapid("C15b", 20000, 100000),
